@@ -458,7 +458,32 @@ func (c *Ctx) c17Decorators() {
 		}
 		R.Analysed(fname(getter))
 		gk := tn + ":getter:" + getter.Name()
-		okSelf := len(getter.Params) == 1 && assert.X == ssa.Value(getter.Params[0])
+		// the error under test: the parameter itself (recursive idiom), or the loop variable that starts as the
+		// parameter and is replaced by errors.Unwrap of itself (iterative idiom)
+		var cur ssa.Value
+		iterative := false
+		if len(getter.Params) == 1 {
+			cur = getter.Params[0]
+			if ph, isPhi := assert.X.(*ssa.Phi); isPhi {
+				fromParam, fromUnwrap, other := false, false, false
+				for _, e := range ph.Edges {
+					switch {
+					case e == ssa.Value(getter.Params[0]):
+						fromParam = true
+					default:
+						if call, isCall := e.(*ssa.Call); isCall && core.FuncIs(core.StaticCallee(call), "errors", "Unwrap") && call.Call.Args[0] == ssa.Value(ph) {
+							fromUnwrap = true
+						} else {
+							other = true
+						}
+					}
+				}
+				if fromParam && fromUnwrap && !other {
+					cur, iterative = ph, true
+				}
+			}
+		}
+		okSelf := cur != nil && assert.X == cur
 		R.Check(okSelf, "C17.R2", gk+":tests-error-itself", c.at(assert), "the getter tests the error it was given (outermost first)", "the type assertion is applied to the parameter", "the type assertion is applied to something other than the getter's parameter")
 		val := (*ssa.Extract)(nil)
 		okv := (*ssa.Extract)(nil)
@@ -482,7 +507,7 @@ func (c *Ctx) c17Decorators() {
 		for _, ci := range core.Calls(getter) {
 			if call, ok := ci.(*ssa.Call); ok && core.FuncIs(core.StaticCallee(call), "errors", "Unwrap") {
 				unwraps = append(unwraps, call)
-				R.Check(anyDominates(fail, call.Block()) && call.Call.Args[0] == ssa.Value(getter.Params[0]), "C17.R2", gk+":unwrap-after-test", c.at(call), "the chain is unwrapped only after the error itself was tested and did not carry the decoration", "errors.Unwrap(err) is dominated by the assertion's failure edge", "errors.Unwrap is reachable before / without the type test failing, or unwraps something other than the parameter")
+				R.Check(anyDominates(fail, call.Block()) && call.Call.Args[0] == cur, "C17.R2", gk+":unwrap-after-test", c.at(call), "the chain is unwrapped only after the error itself was tested and did not carry the decoration", "errors.Unwrap(err) is dominated by the assertion's failure edge", "errors.Unwrap is reachable before / without the type test failing, or unwraps something other than the parameter")
 			}
 		}
 		R.Check(len(unwraps) >= 1, "C17.R2", gk+":walks-chain", c.atFn(getter), "the getter walks the wrap chain (errors.Unwrap), so decorations under fmt-style wrapping are found", sprintf("%d errors.Unwrap call(s)", len(unwraps)), "the getter never calls errors.Unwrap")
@@ -504,7 +529,18 @@ func (c *Ctx) c17Decorators() {
 				rec = true
 			}
 		}
-		R.Check(rec, "C17.R2", gk+":recurses-on-unwrapped", c.atFn(getter), "otherwise the getter looks the decoration up in errors.Unwrap(err)", "calls itself on the unwrapped error", "the getter does not recurse on errors.Unwrap(err) (accepted idiom: assert + Unwrap recursion)")
+		if iterative && len(unwraps) == 1 {
+			// the loop continues with the unwrapped error while it is non-nil
+			ph := cur.(*ssa.Phi)
+			cont := false
+			for _, e := range nilEdges(ph, false) {
+				if e.dominates(assert.Block()) {
+					cont = true
+				}
+			}
+			rec = cont
+		}
+		R.Check(rec, "C17.R2", gk+":recurses-on-unwrapped", c.atFn(getter), "otherwise the getter looks the decoration up in errors.Unwrap(err)", "calls itself on the unwrapped error, or loops with err = errors.Unwrap(err) while err != nil", "the getter neither recurses on errors.Unwrap(err) nor iterates over the chain (accepted idioms: assert + Unwrap recursion; for err != nil { assert; err = Unwrap(err) })")
 		// Flatten uses the getter on its parameter
 		used := false
 		if flatten != nil {
